@@ -101,7 +101,7 @@ theorem cores_toMachine (env : Env) (c : Cls) :
 /-- `≈` classes denote engine-equivalent machines, whatever the user code and options are -/
 theorem Equiv.toMachine (env : Env) {c₁ c₂ : Cls} (E : Equiv c₁ c₂) :
     MEquiv (toMachine env c₁) (toMachine env c₂) where
-  behav := rfl
+  behav := ⟨rfl, rfl⟩
   truthy := rfl
   allow := rfl
   startValue := rfl
